@@ -4,8 +4,13 @@
 (* of the rule.                                                            *)
 (* case = [host, rc, mode, results |-> << [its, m] >>]                      *)
 (*   host : substrate molecule on the common index list (present flags)     *)
-(*   rc   : the rule actually used (SynReactor.rule.rc, already inverted     *)
-(*          for backward application) as an ITS graph                        *)
+(*   rc   : the rule object the library derived (SynReactor.rule.rc, already   *)
+(*          inverted for backward application) as an ITS graph - used only    *)
+(*          for the exact-application note                                    *)
+(*   tpl  : the template AS WRITTEN (centre or full ITS of the template        *)
+(*          reaction, sides exchanged for backward application): clauses (b)   *)
+(*          and (c) and the preconditions refer to it, so that a defect in the *)
+(*          library's own processing of the template is not taken over         *)
 (*   mode : "implicit" (implicit_temp=True, explicit_h=False) or "explicit"  *)
 (*   its  : one graph of SynReactor.its_list on the common index list        *)
 (*   m    : the match it was built from (implicit mode, else <<>>)           *)
@@ -29,10 +34,10 @@ ResClauses(c, k) ==
        hostOnly == [n |-> Cardinality({v \in 1..c.host.n : c.host.present[v] = 1}),
                     t |-> SelectSeq(c.host.t, LAMBDA x : TRUE), adj |-> c.host.adj]
    IN << <<tag \o "substrate-side-is-not-the-unchanged-substrate", ReactantSideIsSubstrate(I, host)>>,
-         <<tag \o "element-or-charge-not-conserved", CentreBalanced(c.rc) => Conserved(I)>>,
+         <<tag \o "element-or-charge-not-conserved", CentreBalanced(c.tpl) => Conserved(I)>>,
          <<tag \o "hydrogen-or-charge-change-differs-from-the-rule",
-              TotalDeltaH(I) = TotalDeltaH(c.rc) /\ TotalDeltaCh(I) = TotalDeltaCh(c.rc) /\ SameElements(I)>>,
-         <<tag \o "changed-bonds-differ-from-the-rule", SameChanges(I, c.rc)>>,
+              TotalDeltaH(I) = TotalDeltaH(c.tpl) /\ TotalDeltaCh(I) = TotalDeltaCh(c.tpl) /\ SameElements(I)>>,
+         <<tag \o "changed-bonds-differ-from-the-rule", SameChanges(I, c.tpl)>>,
          <<"note:C03Cases:" \o tag \o "not-node-for-node-the-rule-applied-at-the-logged-match",
               (c.mode = "implicit" /\ Len(r.m) = c.rc.n /\ \A v \in 1..c.host.n : c.host.present[v] = 1)
                  => SameITS(I, Apply([n |-> c.host.n, t |-> c.host.t, adj |-> c.host.adj], c.rc, r.m))>> >>
@@ -41,8 +46,8 @@ RECURSIVE AllRes(_, _)
 AllRes(c, k) == IF k > Len(c.results) THEN <<>> ELSE ResClauses(c, k) \o AllRes(c, k + 1)
 
 Verdict(c) ==
-   IF ~WellFormedT(c.rc) THEN "skip:template-not-fully-mapped"
-   ELSE IF ~ConsistentH(c.rc, c.mode) THEN "skip:template-hydrogens-not-written-consistently"
+   IF ~WellFormedT(c.tpl) THEN "skip:template-not-fully-mapped"
+   ELSE IF ~ConsistentH(c.tpl, c.mode) THEN "skip:template-hydrogens-not-written-consistently"
    ELSE IF Len(c.results) = 0 THEN "skip:no-result"
    ELSE AllFails(AllRes(c, 1))
 
